@@ -1340,10 +1340,102 @@ def run_O(chunk, R):
         report(R, check_other_case(case, R))
 
 
+# ===================================================== long chains (LC) ===
+# Provenance over LONG chains: the numbering of the 'transformation i' entries
+# must stay consecutive beyond 9 steps (string vs numeric comparison of keys,
+# two-digit indices) and earlier entries must survive.  Cheap transformations
+# only, so that the formula stays small: the chain is checked after every step.
+LC_ALPHABET = ['flip', 'or1', 'shuffle-fixed', 'xor1', 'one1', 'maj1']
+
+
+def _lc_apply(name, F):
+    import cnfgen
+    if name == 'flip':
+        return cnfgen.FlipPolarity(F)
+    if name == 'or1':
+        return cnfgen.OrSubstitution(F, 1)
+    if name == 'xor1':
+        return cnfgen.XorSubstitution(F, 1)
+    if name == 'eq1':
+        return cnfgen.AllEqualSubstitution(F, 1)
+    if name == 'one1':
+        return cnfgen.ExactlyOneSubstitution(F, 1)
+    if name == 'shuffle-fixed':
+        return cnfgen.Shuffle(F, 'fixed', 'fixed', 'fixed')
+    if name == 'maj1':
+        return cnfgen.MajoritySubstitution(F, 1)
+    raise KeyError(name)
+
+
+def check_long_chain(case):
+    import cnfgen
+    out = []
+    F = cnfgen.CNF([[1, -2], [2, 3], [-1, -3]], description='long chain start')
+    if case.get('prefilled'):
+        F.header['transformation 1'] = 'something done earlier'
+    base = list(F.header.items())
+    n0 = sum(1 for k in F.header if str(k).startswith('transformation'))
+    for step, name in enumerate(case['chain'], start=1):
+        before = list(F.header.items())
+        try:
+            G = _lc_apply(name, F)
+        except Exception as e:
+            out.append({'key': 'long-chain:%s:exception:%s' % (name, type(e).__name__),
+                        'what': repr(e)[:200], 'case': dict(case)})
+            return out
+        if list(F.header.items()) != before:
+            out.append({'key': 'long-chain:%s:input-header-modified' % name,
+                        'what': 'header of the input changed at step %d' % step, 'case': dict(case)})
+            return out
+        keys = [k for k in G.header if str(k).startswith('transformation')]
+        want = ['transformation %d' % i for i in range(1, n0 + step + 1)]
+        if keys != want:
+            out.append({'key': 'long-chain:header:numbering',
+                        'what': 'after %d steps (%s) the header lists %r instead of %r' %
+                        (step, name, keys[-4:], want[-4:]), 'case': dict(case)})
+            return out
+        for k, v in before:
+            if k != 'description' and G.header.get(k) != v:
+                out.append({'key': 'long-chain:header:earlier-entry-lost',
+                            'what': 'entry %r changed or lost at step %d (%s)' % (k, step, name),
+                            'case': dict(case)})
+                return out
+        F = G
+    return out
+
+
+def long_chain_cases(tier):
+    import itertools
+    L = 12 if tier != 'thorough' else 23
+    cs = []
+    for i, first in enumerate(LC_ALPHABET):
+        for j, second in enumerate(LC_ALPHABET):
+            # chain = first repeated, with `second` at every position in turn
+            # from 8 on (so each transformation is the 9th, 10th, 11th ... step)
+            for pos in range(8, L):
+                chain = [first] * L
+                chain[pos] = second
+                cs.append({'part': 'LC', 'chain': chain, 'prefilled': (i + j + pos) % 2 == 1})
+    return cs
+
+
+def run_LC(chunk, R):
+    for case in chunk:
+        vs = check_long_chain(case)
+        R.stats['long_chains'] += 1
+        R.stats['transitions'] += len(case['chain'])
+        R.stats['states'] += len(case['chain'])
+        R.stats['executions'] += len(case['chain'])
+        R.case(sample=case if R.evals % 40 == 0 else None, nontrivial=True)
+        report(R, vs)
+
+
 # ================================================================ runner ===
 def replay(case):
     preload()
     part = case.get('part')
+    if part == 'LC':
+        return check_long_chain(case)
     if part == 'A':
         return replay_A(case)
     if part == 'T':
@@ -1378,4 +1470,6 @@ def shards(tier, seed):
         out.append(('L%03d' % i, 'run_L', chunk))
     for i, chunk in enumerate(scope.stripe(other_cases(tier), 5 if thorough else 3)):
         out.append(('O%03d' % i, 'run_O', chunk))
+    for i, chunk in enumerate(scope.stripe(long_chain_cases(tier), 4)):
+        out.append(('LC%02d' % i, 'run_LC', chunk))
     return out
